@@ -13,7 +13,7 @@ H  every saveable class of a registry (axes, functions, operators,
    Hamiltonians, density matrices and their evolutions, relaxation tensors,
    molecules, aggregates built and unbuilt, bath functions, spectra and
    containers, 2D responses) is saved and loaded under every combination of
-   basis depth 0/1 and energy units at save and at load time; the observable
+   basis depth 0/1/2 and energy units at save and at load time; the observable
    data are compared in a neutral context.  Export/import matrix: every
    format x real/complex x 1D/2D x with/without axis.
 """
@@ -197,14 +197,17 @@ def main():
             want = observable(factory())
         dims = {"Operator": 3, "SelfAdjointOperator": 3, "Hamiltonian": 3,
                 "ReducedDensityMatrix": 3, "DensityMatrixEvolution": 3}
-        for ds, dl in itertools.product((0, 1), repeat=2):
+        # save scenarios: depth 0, 1, 2 (two nested contexts of
+        # non-commuting operators, object accessed in the inner one) and
+        # "2o" (accessed in the outer context only, saved in the inner one)
+        for ds, dl in itertools.product((0, 1, 2, "2o"), (0, 1, 2)):
             for us, ul in ([("int", "int"), ("1/cm", "eV"), ("eV", "int")]
                            if not ck.thorough else
                            itertools.product(UNITS, repeat=2)):
                 rp = dict(kind="parcel", cls=name, save_depth=ds,
                           load_depth=dl, save_units=us, load_units=ul)
                 fn = os.path.join(tmp, "obj.qrp")
-                key = "parcel:save-depth=%d" % ds
+                key = "parcel:save-depth=%s" % ds
                 obj = factory()
                 # the context operator: for 3x3 objects a fixed Hamiltonian,
                 # for aggregates / tensors their own Hamiltonian
@@ -216,12 +219,26 @@ def main():
                     if name == "RedfieldRelaxationTensor":
                         return o.Hamiltonian
                     return ctxH
+                def inner(op):
+                    n = op.dim
+                    B = numpy.random.RandomState(n).randn(n, n)
+                    return qr.Hamiltonian(data=(B + B.T) / 2)
                 with ck.guarded("parcel-round-trip", key, rp, rp):
                     with qr.energy_units(us):
                         if ds == 1:
                             with qr.eigenbasis_of(ctxop(obj)):
                                 touch(obj, name)
                                 obj.save(fn)
+                        elif ds in (2, "2o"):
+                            op1 = ctxop(obj)
+                            op2 = inner(op1)
+                            with qr.eigenbasis_of(op1):
+                                if ds == "2o":
+                                    touch(obj, name)
+                                with qr.eigenbasis_of(op2):
+                                    if ds == 2:
+                                        touch(obj, name)
+                                    obj.save(fn)
                         else:
                             obj.save(fn)
                     with qr.energy_units(ul):
@@ -229,6 +246,11 @@ def main():
                             with qr.eigenbasis_of(ctxH):
                                 new = qr.load_parcel(fn)
                                 touch(new, name)
+                        elif dl == 2:
+                            with qr.eigenbasis_of(ctxH):
+                                with qr.eigenbasis_of(inner(ctxH)):
+                                    new = qr.load_parcel(fn)
+                                    touch(new, name)
                         else:
                             new = qr.load_parcel(fn)
                     with qr.energy_units("int"):
